@@ -13,6 +13,12 @@ an oracle computed from the description only:
 * malformed workbooks raise NetworkTopologyError and nothing else;
 * every Service row becomes one request (units converted, route list in order with its strictness, own end transceivers
   dropped) and one synchronization entry per non-blank 'disjoint from'.
+
+Route lists naming a site that the topology conversion re-typed to ROADM (declared / defaulting to ILA, degree not 2) are
+kept in three dedicated workbooks reported under the single witness key 'route-list-names-site-retyped-to-roadm' (finding
+F20: convert.corresp_names read the declared types again, so such a site was not mapped to its 'roadm <site>'; repaired in
+/repo, the workbooks stay in the family).
+Set C20_TRACE=1 to get every witness on stderr.
 """
 import contextlib
 import io
